@@ -14,9 +14,12 @@ pub fn routing_agree(len: usize, n: usize) {
     while i < len { b[i] = vs::u8(); vs::assume(b[i] < 0x80); i += 1; }
     let key = &b[..len];
     let s = match std::str::from_utf8(key) { Ok(s) => s, Err(_) => return };
-    let a = verif_hash_key(s, n);
-    let c = verif_hash_key_bytes(key, n);
-    let mut agree = a == c;
+    crate::vs::streams_reset();
+    let a = verif_hash_key(s, n); // hasher #0
+    let c = verif_hash_key_bytes(key, n); // hasher #1
+    // Kani: the exact question "were the same bytes fed to the hasher?" (independent of the model hash);
+    // natively: the real SipHash indices, swept over all 1-byte keys because one key can agree by chance
+    let mut agree = if vs::NATIVE || n == 1 { a == c } else { vs::streams_equal(0, 1) && a == c };
     if vs::NATIVE && agree {
         let mut x = 0u8;
         while x < 0x80 {
@@ -98,5 +101,7 @@ pub fn twin() {
     vs::assume(a < 0x80);
     let kb = [a];
     let s = std::str::from_utf8(&kb).unwrap();
-    vcheck!(verif_hash_key(s, 16) != verif_hash_key_bytes(&kb, 16) , "twin:reachable");
+    let x = verif_hash_key(s, 16);
+    let y = verif_hash_key_bytes(&kb, 16);
+    vcheck!(x >= 16 || y >= 16, "twin:reachable");
 }
